@@ -16,6 +16,7 @@ import copy
 import hashlib
 import io
 import itertools
+import random
 
 from .. import world, transforms, common
 from ..common import Violation, HarnessError
@@ -190,9 +191,15 @@ def gen_model(rng, name, depth, lib, top):
     return m
 
 
-def model_text(m, order):
-    lines = ['.model ' + m['name'], '.inputs ' + ' '.join(m['inputs']),
-             '.outputs ' + ' '.join(m['outputs'])]
+def model_text(m, order, io_perm=None):
+    ins, outs = list(m['inputs']), list(m['outputs'])
+    if io_perm is not None:
+        # the port lines in any order: x[2] is bit 2 wherever it is listed
+        r = random.Random(io_perm)
+        r.shuffle(ins)
+        r.shuffle(outs)
+    lines = ['.model ' + m['name'], '.inputs ' + ' '.join(ins),
+             '.outputs ' + ' '.join(outs)]
     cmds = [m['cmds'][i] for i in order]
     for c in cmds:
         if c['k'] == 'names':
@@ -225,7 +232,8 @@ def gen_blif(rng):
                 used.add(c['model'])
                 mark([x for x in lib if x['name'] == c['model']][0])
     mark(top)
-    models = [top] + [m for m in lib if m['name'] in used]
+    spare = rng.random() < 0.4      # a model nobody instantiates stays in the file
+    models = [top] + [m for m in lib if m['name'] in used or spare]
     return models
 
 
@@ -308,13 +316,17 @@ def gen_case(streams, tier):
     return {'prop': ID, 'fmt': 'blif', 'models': models, 'orders': orders, 'morder': morder,
             'merge': g.random() < 0.5, 'as_file': g.random() < 0.5, 'tape': tape,
             'fail_first': fail_first,
+            'io_perm': f.getrandbits(32) if f.random() < 0.4 else None,
+            # top_model left to its default (the first model listed) when 'top' is listed first
+            'default_top': f.random() < 0.5,
             'sched': world.gen_sched(streams, with_iter=False)}
 
 
 def blif_text(case, broken=None):
     parts = []
     for mi in case['morder']:
-        t = model_text(case['models'][mi], case['orders'][mi])
+        t = model_text(case['models'][mi], case['orders'][mi],
+                       case.get('io_perm') if mi == 0 else None)
         if broken is not None and mi == broken['model'] % len(case['models']):
             m = case['models'][mi]
             src = (m['inputs'] + ['zz_x'])[0]
@@ -357,7 +369,11 @@ def run(case, res):
     try:
         src = io.StringIO(text) if case['as_file'] else text
         with transforms.quiet():
-            pyrtl.input_from_blif(src, block=blk, merge_io_vectors=case['merge'], top_model='top')
+            if case.get('default_top') and case['morder'][0] == 0:
+                pyrtl.input_from_blif(src, block=blk, merge_io_vectors=case['merge'])
+                res.probes.hit('top_model_defaulted')
+            else:
+                pyrtl.input_from_blif(src, block=blk, merge_io_vectors=case['merge'], top_model='top')
         blk.sanity_check()
         sim = pyrtl.Simulation(tracer=pyrtl.SimulationTrace(block=blk), block=blk)
     except Exception as e:
